@@ -200,7 +200,7 @@ def evaluate(c):
     wnote = None
     zen = (0., 15., 7)
     azi = (0., 30., 12)
-    for fs in sets:
+    for fs, loaded in [(s_, False) for s_ in sets] + [(sets[0], True)]:
         gsrc, psrc = [], []
         for (at, d, gnd), v in fs:
             gsrc.append(dict(at=at, dir=d, v=[v.real, v.imag]))
@@ -210,11 +210,23 @@ def evaluate(c):
                 psrc.append(dict(at=at, dir=d, v=[v.real, v.imag]))
                 psrc.append(dict(at=list(np.array(at) * MIR), dir=list(-np.array(d) * MIR), v=[v.real, v.imag]))
         g = geom.build(dict(gc, sources=gsrc))
+        if loaded:
+            # 20+30j Ohm on every pulse (junction pulses in every orientation included); in the pair model the pulse on the
+            # plane is the ground pulse plus its image and carries the load twice
+            import mininec.mininec as mm
+            g.register_load(mm.Impedance_Load(20 + 30j))
         g.compute()
         tol, cond = geom.cond_tol(g)
         if tol is None:
             continue
         fr = geom.build(dict(pair_case(c) if 'fwires' not in c else dict(f=c['f'], env='free', wires=c['fwires']), sources=psrc))
+        if loaded:
+            fr.register_load(mm.Impedance_Load(20 + 30j))
+            l2 = mm.Impedance_Load(20 + 30j)
+            zt = geom.ptol(fr)
+            for p_ in fr.pulses:
+                if abs(p_.point[2]) <= zt:
+                    fr.register_load(l2, p_.idx)
         fr.compute()
         ns += 1
         # currents: conductor half currents of the upper half space
@@ -254,7 +266,7 @@ def evaluate(c):
                 worst, wnote = x / t, (k, x, cond, [f[0][0] for f in fs])
             if not (x <= t):
                 kind = 'gndfeed' if any(f[0][2] for f in fs) else 'feed'
-                viol.append(('DEV-%s-%s' % (k, kind), '%s deviates %.3g > %.3g, feeds %s, cond %.0f' % (k, x, t, [f[0][0] for f in fs], cond)))
+                viol.append(('DEV-%s-%s%s' % (k, kind, '-loaded' if loaded else ''), '%s deviates %.3g > %.3g, feeds %s, cond %.0f%s' % (k, x, t, [f[0][0] for f in fs], cond, ', 20+30j Ohm on every pulse' if loaded else '')))
     und = sorted((e['a'], e['b'], e['n'], round(e['r'], 9)) for e in c.get('st', []))
     ngnd = sum(1 for p in g0.pulses if p.ground.any())
     return dict(viol=viol[:6], canon=['%s%s|%d' % (c.get('name', ''), und, i) for i in range(ns)], nontriv=True, trans=2 * ns, traces=ns,
